@@ -505,11 +505,12 @@ func (c *Check) updatesTakeEffect(rule string) {
 }
 
 // constructorRules: what the function that stores a newly built request context guarantees about the stored value.
-//   frequency (C10/C11): a repeated context is stored with a usable frequency — on every committed path that has established
-//     Repeated, the stored RepeatedFrequency is either established non-zero or is the stored Timeout itself (the documented
-//     default); a zero frequency schedules the next batch in the past and the context is never processed again;
-//   callbacks (C12/C20): a context with an owning module is stored only on paths that have established that the module has
-//     registered BOTH callbacks (response and state) — block processing calls them without a nil test.
+//
+//	frequency (C10/C11): a repeated context is stored with a usable frequency — on every committed path that has established
+//	  Repeated, the stored RepeatedFrequency is either established non-zero or is the stored Timeout itself (the documented
+//	  default); a zero frequency schedules the next batch in the past and the context is never processed again;
+//	callbacks (C12/C20): a context with an owning module is stored only on paths that have established that the module has
+//	  registered BOTH callbacks (response and state) — block processing calls them without a nil test.
 func (c *Check) constructorRules(rule string, which map[string]bool) {
 	var respG, stateG *Func
 	for _, f := range c.handFuncs("keeper") {
